@@ -39,13 +39,28 @@ def _init():
 
 
 def _worker(args):
-    qual, pid, both = args
+    qual, pid, both, part = args
     try:
         prog, reg = _init()
-        return verify.verify_function(prog, reg, qual, only_serves=[pid], both=both)
+        return verify.verify_function(prog, reg, qual, only_serves=[pid], both=both, part=part)
     except Exception as e:  # pragma: no cover
         return {"function": qual, "status": "engine_error", "error": f"{type(e).__name__}: {e}\n{traceback.format_exc()[-800:]}",
                 "obligations": []}
+
+
+def _any_worker(task):
+    kind = task[0]
+    if kind == "P":
+        return _worker(task[1:])
+    if kind == "B":
+        return run_rtcheck(task[1], task[2], None, task[3], task[4], task[5])
+    if kind == "F":
+        try:
+            prog, reg = _init()
+            return finite.run(task[1], prog, reg, task[2], REPO)
+        except Exception as e:
+            return {"error": f"finite obligations crashed: {type(e).__name__}: {e} {traceback.format_exc()[-600:]}"}
+    return None
 
 
 def functions_for(reg: Registry, pid: str):
@@ -117,6 +132,25 @@ def parser_trace_witness():
     return _trace_witness[0]
 
 
+_enum_witness = {}
+
+
+def enum_witness(script, args):
+    """first failing case of a bounded enumeration over the real code (replay for refuted obligations)"""
+    if script not in _enum_witness:
+        env = dict(os.environ)
+        env["VERIF_REPO"] = REPO
+        try:
+            p = subprocess.run([REPO_PY, os.path.join(VERIF, "pyvc", f"enum_{script}.py")] + args, capture_output=True,
+                               text=True, env=env, timeout=600)
+            line = [l for l in p.stdout.splitlines() if l.startswith("{")]
+            w = json.loads(line[-1])["results"][0].get("witness") if line else None
+            _enum_witness[script] = w[0] if w else None
+        except Exception:
+            _enum_witness[script] = None
+    return _enum_witness[script]
+
+
 def seeds_from_model(model):
     seeds = []
     if isinstance(model, dict):
@@ -162,10 +196,37 @@ def main(argv):
     funcs = functions_for(reg, pid)
     # ---------------- P obligations
     reports = []
+    tasks = []
     if funcs:
-        ctx = mp.get_context("fork")
-        with ctx.Pool(min(16, max(1, len(funcs)))) as pool:
-            reports = pool.map(_worker, [(q, pid, both) for q in funcs], chunksize=1)
+        # heavy functions (nested loop contracts) are split: each task re-executes the function symbolically and
+        # discharges every n-th obligation (wall-clock over CPU)
+        tasks = []
+        for q in funcs:
+            nl = len(reg.contracts[q].loops)
+            n = 12 if nl >= 2 else (3 if nl == 1 else 1)
+            for i in range(n):
+                tasks.append((q, pid, both, (i, n) if n > 1 else None))
+        tasks.sort(key=lambda t: -len(reg.contracts[t[0]].loops))
+    bound = 3 if tier == "quick" else 4
+    all_tasks = [("F", pid, tier)] + [("P",) + t for t in (tasks if funcs else [])] + \
+                [("B", q, bound, pid, 40000 if tier == "quick" else 400000, 60 if tier == "quick" else 600) for q in funcs]
+    ctx = mp.get_context("fork")
+    with ctx.Pool(min(16, max(1, len(all_tasks)))) as pool:
+        results = pool.map(_any_worker, all_tasks, chunksize=1)
+    f_pre = [r for t, r in zip(all_tasks, results) if t[0] == "F"][0]
+    b_pre = [r for t, r in zip(all_tasks, results) if t[0] == "B"]
+    parts = [r for t, r in zip(all_tasks, results) if t[0] == "P"]
+    if funcs:
+        merged = {}
+        for rep in parts:
+            m = merged.get(rep["function"])
+            if m is None:
+                merged[rep["function"]] = rep
+            else:
+                m["obligations"].extend(rep.get("obligations", []))
+                if rep["status"] != "ok" and m["status"] == "ok":
+                    m["status"], m["error"] = rep["status"], rep.get("error")
+        reports = list(merged.values())
     p_obl = p_dis = 0
     by_backend = {}
     solver_time = 0.0
@@ -199,10 +260,10 @@ def main(argv):
                 undecided.append(o["name"])
     # ---------------- F obligations
     f_results = []
-    try:
-        f_results = finite.run(pid, prog, reg, tier, REPO)
-    except Exception as e:
-        errors.append(f"finite obligations crashed: {type(e).__name__}: {e} {traceback.format_exc()[-600:]}")
+    if isinstance(f_pre, dict) and f_pre.get("error"):
+        errors.append(f_pre["error"])
+    else:
+        f_results = f_pre
     fb_results = [r for r in f_results if r.get("bounded")]
     f_results = [r for r in f_results if not r.get("bounded")]
     f_obl = len(f_results)
@@ -215,12 +276,7 @@ def main(argv):
                 violations.append({"obligation": r["name"], "kind": "finite", "detail": r.get("detail"),
                                    "witness": r.get("witness"), "input_found": bool(r.get("witness"))})
     # ---------------- B stand-ins (all functions of the property that declare a generator; mandatory for out-of-reach ones)
-    bound = 3 if tier == "quick" else 4
-    b_results = []
-    b_targets = list(funcs)
-    with mp.get_context("fork").Pool(min(16, max(1, len(b_targets)))) as pool:
-        b_results = pool.starmap(run_rtcheck, [(q, bound, None, pid, 40000 if tier == "quick" else 400000,
-                                                60 if tier == "quick" else 600) for q in b_targets])
+    b_results = b_pre
     b_cases = 0
     bounded = []
     for r in fb_results:
@@ -248,6 +304,9 @@ def main(argv):
         witness = None
         if rep["function"].startswith("gherkin.parser."):
             witness = parser_trace_witness()
+        elif rep["function"].startswith("gherkin.pickles.compiler.Compiler._compile") or \
+                rep["function"].endswith("Compiler.compile"):
+            witness = enum_witness("compile", ["--bound", "2", "--max-fail", "1", "--time-limit", "120"])
         else:
             r = run_rtcheck(rep["function"], bound + 1, seeds, pid, 200000, 120)
             if r.get("failures"):
